@@ -1,8 +1,14 @@
 /-
-  Lemmas/ElabFlat.lean — C13: typing's flattening of directly nested `Union[…]` / `Optional[…]`.  A tree of such
-  unions over supported, pairwise distinct leaves evaluates (in the model of Python's evaluation, `ev` with `mkUnion`
-  = flatten + de-duplicate) to ONE `typing.Union` of the leaves' objects, which `get_typing_lib_info` maps to the AnyOf
-  of the flattened documented alternatives (`Spec/Meaning.flatAlts`).  Induction over the tree; no depth bound.
+  Lemmas/ElabFlat.lean — C13, second lemma file.
+  (1) typing's / Python's flattening of directly nested `Union[…]` / `Optional[…]` / PEP 604 `|` between non-field
+      operands: a tree of such unions over supported, pairwise distinct leaves (operand kinds as `Spec/Meaning.pipeKind`
+      requires) evaluates - in the model of Python's evaluation, `ev` with `mkUnion` / `mkUType` = flatten + de-duplicate -
+      to ONE union object of the leaves' objects (`ev_flatten`), which `get_typing_lib_info` maps to the AnyOf of the
+      flattened documented alternatives (`gtli_flatten`, `Spec/Meaning.flatAlts`).  Induction over the tree with an
+      operand-kind invariant (`KindOk`); no depth bound.
+  (2) `_required` written out (`explicitReq_eq`, `finishClass_explicit`), "a supported declaration never drops its
+      field" (`elabFields_allField`), and the field / class level over the union of both proved regions
+      (`elabField_flatMeaning`, `elabFieldAt_meaningX`, `elabFields_sameX`).
 -/
 import TypedpyModel.Lemmas.Elab
 namespace Typedpy.Elab
@@ -419,5 +425,102 @@ theorem finishClass_opt_irrelevant (req : Option (List String)) (o₁ o₂ : Lis
   cases req with
   | none => rfl
   | some R => simp [finishClass, conflictDropped_allField R _ rs h]
+
+
+/-! ### field and class level over the union of both regions -/
+
+/-- a field declared by a union-tree annotation (with no default, a `= v` default or a `= factory` default)
+    elaborates to the documented flattened meaning -/
+theorem elabField_flatMeaning (O : Oracles) (future : Bool) (fs : FieldSp) (h : flatRegion ptm fs = true) :
+    elabField O ptm future fs = flatMeaning O fs := by
+  obtain ⟨name, mode, ty, dflt, inOpt, quoted, unres⟩ := fs
+  simp only [flatRegion, Bool.and_eq_true] at h
+  obtain ⟨⟨⟨⟨hm, ht⟩, hl⟩, hd⟩, hdf⟩ := h
+  have hmode : mode = .ann := by simpa using hm
+  subst hmode
+  have hev := ev_flatten ty ht hl hd
+  have hg := gtli_flatten ty hl hd
+  have htag : ∀ d opt, eqResult d opt factoryTag = .field d false (some factoryTag) := fun _ _ => rfl
+  cases dflt with
+  | none =>
+    simp [elabField, evTop, hev, annField, isFieldObj_treeObj, isSclsObj_treeObj, hg, afterGtli, finishField,
+      flatMeaning, DefaultSp.value, flatDecl, flatOptional, hasNoneOpt]
+  | eq v n =>
+    simp [elabField, evTop, hev, annField, isFieldObj_treeObj, isSclsObj_treeObj, hg, afterGtli, finishField,
+      flatMeaning, DefaultSp.value, flatDecl, flatOptional, hasNoneOpt, hdf]
+  | eqF p n =>
+    simp [elabField, evTop, hev, annField, isFieldObj_treeObj, isSclsObj_treeObj, hg, afterGtli, finishField,
+      flatMeaning, DefaultSp.value, flatDecl, flatOptional, hasNoneOpt, htag]
+  | kw v n => simp at hdf
+  | kwF p n => simp at hdf
+
+/-- on the union of the two proved regions the model of the class-creation code yields the documented meaning -/
+theorem elabFieldAt_meaningX (sc : Scope) (O : Oracles) (future : Bool) (fs : FieldSp)
+    (h : fieldRegionX O ptm sc future fs = true) : elabFieldAt sc O ptm future fs = fieldMeaningX O ptm fs := by
+  unfold fieldMeaningX
+  by_cases hf : flatRegion ptm fs = true
+  · have hs : stringOk sc future fs = true := by
+      simp only [fieldRegionX, Bool.or_eq_true, Bool.and_eq_true, fieldSupportedAt] at h
+      rcases h with h | h
+      · exact h.2
+      · exact h.2
+    rw [elabFieldAt_eq sc O future fs hs, elabField_flatMeaning O future fs hf]
+    simp [hf]
+  · have hf' : flatRegion ptm fs = false := by simpa using hf
+    simp only [fieldRegionX, hf', Bool.false_and, Bool.false_or, fieldSupportedAt, Bool.and_eq_true] at h
+    rw [elabFieldAt_eq sc O future fs h.2, elabField_meaning' O future fs h.1]
+    simp [hf']
+
+theorem flatMeaning_isField (O : Oracles) (a : FieldSp) {r : FieldRes} (h : flatMeaning O a = .ok r) : isField r = true := by
+  unfold flatMeaning at h
+  cases hv : a.dflt.value with
+  | none => simp [hv] at h; subst h; rfl
+  | some p =>
+    obtain ⟨v, st⟩ := p
+    simp only [hv] at h
+    cases ht : tryDefault O (flatDecl a) v with
+    | error e => simp [ht] at h
+    | ok u =>
+      simp [ht] at h
+      subst h
+      unfold eqResult
+      split <;> rfl
+
+theorem fieldMeaningX_isField (O : Oracles) (a : FieldSp) {r : FieldRes} (h : fieldMeaningX O ptm a = .ok r) :
+    isField r = true := by
+  unfold fieldMeaningX at h
+  split at h
+  · exact flatMeaning_isField O a h
+  · exact fieldMeaning_isField O a h
+
+theorem elabFields_sameX (O : Oracles) (s₁ s₂ : Scope) (f₁ f₂ : Bool) {as bs : List FieldSp}
+    (h : ClassSameX O ptm as bs)
+    (ha : as.all (fieldRegionX O ptm s₁ f₁) = true) (hb : bs.all (fieldRegionX O ptm s₂ f₂) = true) :
+    elabFields O ptm s₁ f₁ as = elabFields O ptm s₂ f₂ bs := by
+  induction h with
+  | nil => rfl
+  | cons hab _ ih =>
+    simp only [List.all_cons, Bool.and_eq_true] at ha hb
+    simp only [elabFields, elabFieldAt_meaningX _ O _ _ ha.1, elabFieldAt_meaningX _ O _ _ hb.1, hab.meaning, hab.name]
+    rw [ih ha.2 hb.2]
+
+theorem elabFields_allFieldX (O : Oracles) (sc : Scope) (f : Bool) : ∀ (as : List FieldSp) (rs : List (String × FieldRes)),
+    as.all (fieldRegionX O ptm sc f) = true → elabFields O ptm sc f as = .ok rs → rs.all (fun p => isField p.2) = true
+  | [], rs, _, h => by simp [elabFields] at h; subst h; rfl
+  | a :: as, rs, hs, h => by
+    simp only [List.all_cons, Bool.and_eq_true] at hs
+    simp only [elabFields, elabFieldAt_meaningX _ O _ _ hs.1] at h
+    cases hm : fieldMeaningX O ptm a with
+    | error e => simp [hm] at h
+    | ok r =>
+      simp only [hm, bindE_ok] at h
+      cases hr : elabFields O ptm sc f as with
+      | error e => simp [hr] at h
+      | ok rs' =>
+        simp only [hr, bindE_ok] at h
+        injection h with h
+        subst h
+        simp only [List.all_cons, Bool.and_eq_true]
+        exact ⟨fieldMeaningX_isField O a hm, elabFields_allFieldX O sc f as rs' hs.2 hr⟩
 
 end Typedpy.Elab
